@@ -47,6 +47,15 @@ static void *load(const char *path, long off, long nbytes)
 	return buf;
 }
 
+/* paths arrive with blanks encoded as 0x01 (the line protocol is blank-separated) */
+static char *unesc(char *s)
+{
+	char *c;
+	for (c = s; c && *c; c++)
+		if (*c == '\x01') *c = ' ';
+	return s;
+}
+
 int main(void)
 {
 	char line[65536];
@@ -64,6 +73,7 @@ int main(void)
 			           dir, order, kind, &bytes, &sc, &fc, &start, &n, &d, uuid, &comp, &cks, &cplx, &nsub, &cont) != 15) {
 				fprintf(stderr, "bad create\n"); return 3;
 			}
+			unesc(dir);
 			w = digital_rf_create_write_hdf5(dir, h5type(order[0], kind[0], bytes), sc, fc, start, n, d, uuid,
 			                                 comp, cks, cplx, nsub, cont, 0);
 			printf("C %d\n", w ? 0 : -1);
@@ -73,7 +83,7 @@ int main(void)
 			char *path = strtok(NULL, " \n");
 			long off = atol(strtok(NULL, " \n"));
 			long nbytes = atol(strtok(NULL, " \n"));
-			void *buf = load(path, off, nbytes);
+			void *buf = load(unesc(path), off, nbytes);
 			uint64_t before = w->global_index;
 			int rc = digital_rf_write_hdf5(w, idx, buf, len);
 			printf("R %d %" PRIu64 " %" PRIu64 " %d\n", rc, before, w->global_index, w->has_failure);
@@ -101,7 +111,7 @@ int main(void)
 			path = strtok(NULL, " \n");
 			off = atol(strtok(NULL, " \n"));
 			nbytes = atol(strtok(NULL, " \n"));
-			buf = load(path, off, nbytes);
+			buf = load(unesc(path), off, nbytes);
 			before = w->global_index;
 			rc = digital_rf_write_blocks_hdf5(w, g, b, nb, buf, len);
 			printf("R %d %" PRIu64 " %" PRIu64 " %d\n", rc, before, w->global_index, w->has_failure);
